@@ -244,7 +244,7 @@ pub fn run(cfg: &RunCfg) -> PropRun {
         run.inconclusive.push(e);
         return run;
     }
-    let out = campaign(cfg, ID, "gate", cfg.pick(150_000, 1_500_000), strategy, check_case);
+    let out = campaign(cfg, ID, "gate", cfg.pick(300_000, 3_000_000), strategy, check_case);
     run.absorb(out);
     // required class shares (generator health, not a verdict about the crate)
     let pass = run.stats.class_count("gate-passes");
